@@ -728,6 +728,35 @@ impl GlobalInferenceCtx<'_> {
     /// `deref` allows certain expressions to be mutable
     /// only if they are being mutated through a deref
     fn get_mutability(&self, expr: Idx<Expr>, assignment: bool, deref: bool) -> ExprMutability {
+        let by_form = self.get_mutability_by_form(expr, assignment, deref);
+
+        if !deref {
+            return by_form;
+        }
+
+        // the data is reached by dereferencing the value of `expr`, so it is the pointer type
+        // of `expr` that decides, not the way the pointer happened to be created.
+        // `p : ^i32 = ^mut x; p^ = 5;`, `returns_immutable_ptr()^ = 5;` and `ptrs[0]^ = 5;`
+        // must be rejected, `param_array_of_mut_ptrs[0]^ = 5;` must be accepted.
+        match self.tys[self.loc][expr].as_pointer() {
+            Some((true, _)) => ExprMutability::Mutable,
+            Some((false, _)) => match by_form {
+                ExprMutability::Mutable => {
+                    ExprMutability::ImmutableRef(self.bodies.range_for_expr(expr))
+                }
+                // keep the more precise help of the syntactic walk
+                other => other,
+            },
+            None => by_form,
+        }
+    }
+
+    fn get_mutability_by_form(
+        &self,
+        expr: Idx<Expr>,
+        assignment: bool,
+        deref: bool,
+    ) -> ExprMutability {
         match &self.bodies[expr] {
             Expr::Missing => ExprMutability::Mutable,
             Expr::ArrayLiteral { .. } => ExprMutability::Mutable,
